@@ -483,3 +483,87 @@ func Bound(xs []int, limit int) int {
 	bound(limit - 1)
 	return m
 }
+
+// ---- maps as association lists
+
+func Tally(xs []int) (int, int, bool) {
+	m := map[int]int{}
+	for _, x := range xs {
+		m[x]++
+		if m[x] > 2 {
+			delete(m, x)
+		}
+	}
+	v, ok := m[3]
+	return len(m), v + m[4], ok
+}
+
+type Reg struct {
+	seen map[string]bool
+	wild map[string]struct{}
+	n    int
+}
+
+func (r *Reg) Add(k string) bool {
+	if r.seen[k] {
+		return false
+	}
+	if len(k) > 1 && k[0] == '*' {
+		r.wild[k[1:]] = struct{}{}
+		return true
+	}
+	r.seen[k] = true
+	r.n++
+	return true
+}
+
+func (r *Reg) Drop(k string) bool {
+	if _, ok := r.seen[k]; ok {
+		delete(r.seen, k)
+		return true
+	}
+	if _, ok := r.wild[k]; ok {
+		delete(r.wild, k)
+		return true
+	}
+	return false
+}
+
+func RegRun(adds, drops, probes []string) (added, dropped, hits, size int) {
+	r := Reg{seen: make(map[string]bool), wild: map[string]struct{}{}}
+	for _, k := range adds {
+		ok := r.Add(k)
+		if ok {
+			added++
+		}
+	}
+	for _, k := range drops {
+		gone := r.Drop(k)
+		if gone {
+			dropped++
+		}
+	}
+	for _, k := range probes {
+		if r.seen[k] {
+			hits++
+		}
+		if _, ok := r.wild[k]; ok {
+			hits += 10
+		}
+	}
+	return added, dropped, hits, len(r.seen)*100 + len(r.wild) + r.n*10000
+}
+
+// range over a map, order-insensitive (translated under "map_range_in_list_order")
+func SumMap(xs []int) (int, int) {
+	m := map[int]int{}
+	for i, x := range xs {
+		m[x] += i + 1
+	}
+	keys, vals := 0, 0
+	for k, v := range m {
+		keys += k
+		vals += v
+	}
+	return keys, vals
+}
